@@ -76,16 +76,28 @@ Qed.
 Lemma Forall_reify_keyed St cs : Forall (has_key St) cs -> Forall keyed (map (reify St) cs).
 Proof. intros H. apply Forall_fmap. eapply Forall_impl; [exact H|]. intros c. apply reify_keyed. Qed.
 
-(** the string heap may grow by blocks the tree does not refer to *)
-Lemma reify_insert_fresh St nk v t : nk ∉ str_blocks t -> reify (<[nk := v]> St) t = reify St t.
+(** [reify] reads the string heap only at the blocks the tree refers to *)
+Lemma reify_frame St St' t : (forall b, b ∈ str_blocks t -> St' !! b = St !! b) -> reify St' t = reify St t.
 Proof.
   induction t as [i d cs IH] using tree_ind'. cbn [str_blocks]. intros Hn.
-  rewrite !not_elem_of_app in Hn. destruct Hn as (H1 & H2 & H3).
   rewrite !reify_unfold. f_equal.
-  - destruct (rd_vstr d) as [b|]; [|done]. cbn. rewrite lookup_insert_ne; [done|]. intros ->. apply H1. cbn. by left.
-  - destruct (rd_key d) as [b|]; [|done]. cbn. rewrite lookup_insert_ne; [done|]. intros ->. apply H2. cbn. by left.
+  - destruct (rd_vstr d) as [b|]; [|done]. cbn. rewrite Hn; [done|]. apply elem_of_app. left. cbn. by left.
+  - destruct (rd_key d) as [b|]; [|done]. cbn. rewrite Hn; [done|]. apply elem_of_app. right. apply elem_of_app. left. cbn. by left.
   - apply map_ext_in. intros c Hc. apply elem_of_list_In in Hc. rewrite Forall_forall in IH. apply IH; [done|].
-    intros Hin. apply H3. apply elem_of_list_bind. by exists c.
+    intros b Hb. apply Hn. apply elem_of_app. right. apply elem_of_app. right. apply elem_of_list_bind. by exists c.
+Qed.
+(** the string heap may grow by blocks the tree does not refer to *)
+Lemma reify_insert_fresh St nk v t : nk ∉ str_blocks t -> reify (<[nk := v]> St) t = reify St t.
+Proof. intros Hn. apply reify_frame. intros b Hb. rewrite lookup_insert_ne; [done|]. by intros ->. Qed.
+(** … and the key of the item does not matter to add_item_to_object, which overwrites it *)
+Lemma keyed_frame St St' x dx csx k :
+  (forall b, b ∈ opt_list (rd_vstr dx) ++ (csx ≫= str_blocks) -> St' !! b = St !! b) ->
+  PatchDefs.keyed (reify St' (T x dx csx)) k = PatchDefs.keyed (reify St (T x dx csx)) k.
+Proof.
+  intros Hn. rewrite !reify_unfold. unfold PatchDefs.keyed. cbn [PatchDefs.set_key PatchDefs.set_ty Tree.n_ty]. f_equal.
+  - destruct (rd_vstr dx) as [b|]; [|done]. cbn. rewrite Hn; [done|]. apply elem_of_app. left. cbn. by left.
+  - apply map_ext_in. intros c Hc. apply elem_of_list_In in Hc. apply reify_frame.
+    intros b Hb. apply Hn. apply elem_of_app. right. apply elem_of_list_bind. by exists c.
 Qed.
 
 (** * 1. by-key lookup: one position, two readings *)
